@@ -50,5 +50,5 @@ def handler_cases(rs):
 
 
 def case_term(r):
-    return "(%s, %s, %d%%N, %d, %d)" % (vlib.coq_bool(r["scenario"] in FAILING), vlib.coq_bool(r["scenario"] == "maintenance"),
+    return "(%s, %s, %d%%N, %d, %d)" % (vlib.coq_bool(r["base"] in FAILING), vlib.coq_bool(r["base"] == "maintenance"),
                                        r["code"] if not r["rpc_err"] else 1024, len(r["effects"]), r["data_msgs"])
